@@ -75,29 +75,48 @@ Definition omit_encoding : Z := 255.   (* PointerEncodings.omit; checked against
 Definition inst_name (i : inst) : string :=
   match nth_error cfi_table (o_cls i) with Some c => cname c | None => EmptyString end.
 
+Definition apply_one (s : pstate) (i : inst) : result pstate :=
+  let n := inst_name i in
+  if String.eqb n "InstDefCFAExpression" then
+    match o_args i with
+    | [FExpr e] => Ok (set_cur_cfa s (CFAExpr e))
+    | _ => Err TypeErr
+    end
+  else if String.eqb n "InstExpression" then
+    match o_args i with
+    | [FInt r; FExpr e] => Ok (set_cur_reg s r (RAtExpr e))
+    | _ => Err TypeErr
+    end
+  else if String.eqb n "InstValExpression" then
+    match o_args i with
+    | [FInt r; FExpr e] => Ok (set_cur_reg s r (RIsExpr e))
+    | _ => Err TypeErr
+    end
+  else if String.eqb n "InstNop" then Ok s
+  else Err NotImplementedErr.
+
 Fixpoint apply_escaped (s : pstate) (l : list inst) : result pstate :=
   match l with
   | [] => Ok s
-  | i :: t =>
-      let n := inst_name i in
-      if String.eqb n "InstDefCFAExpression" then
-        match o_args i with
-        | [FExpr e] => apply_escaped (set_cur_cfa s (CFAExpr e)) t
-        | _ => Err TypeErr
-        end
-      else if String.eqb n "InstExpression" then
-        match o_args i with
-        | [FInt r; FExpr e] => apply_escaped (set_cur_reg s r (RAtExpr e)) t
-        | _ => Err TypeErr
-        end
-      else if String.eqb n "InstValExpression" then
-        match o_args i with
-        | [FInt r; FExpr e] => apply_escaped (set_cur_reg s r (RIsExpr e)) t
-        | _ => Err TypeErr
-        end
-      else if String.eqb n "InstNop" then apply_escaped s t
-      else Err NotImplementedErr
+  | i :: t => do s' <- apply_one s i; apply_escaped s' t
   end.
+
+(* parse_cfi_instructions is a generator: each instruction is applied as soon as it is decoded,
+   so an unsupported instruction is reported before a later decoding error *)
+Fixpoint escape_loop (fuel : nat) (s : pstate) (l : bytes) (offset total : Z) (big : bool) (ps : Z)
+  : result pstate :=
+  if offset <? total then
+    match fuel with
+    | O => Err OutOfFuel
+    | S f =>
+        do '(i, n, l1) <- decode_inst l big ps;
+        do s' <- apply_one s i;
+        escape_loop f s' l1 (offset + n) total big ps
+    end
+  else Ok s.
+
+Definition run_escape (s : pstate) (args : list Z) (big : bool) (ps : Z) : result pstate :=
+  escape_loop (S (List.length args)) s args 0 (Z.of_nat (List.length args)) big ps.
 
 Section Eval.
   (* ABI parameters *)
@@ -183,8 +202,7 @@ Section Eval.
         end
       else if String.eqb name ".cfi_escape" then
         if negb (forallb (fun b => (0 <=? b) && (b <? 256)) args) then Err ValueErr else   (* bytes(args) *)
-        do insts <- parse_cfi_instructions args big ptr_size;
-        do s' <- apply_escaped s insts;
+        do s' <- run_escape s args big ptr_size;
         Ok (Some s', false)
       else Err NotImplementedErr
     end.
